@@ -603,6 +603,7 @@ class Interp:
             self.fail("adjust/block-count", "%r has %d blocks after adjustResolution, the reference has %d" % (a.obj, len(got), sum(plan)))
             raise Stop()
         self.pre_ids = set(self.by_id)
+        self.pre_shared = self.shared_cells(self.nodes)
         idx = 0
         for b, k in zip(kids, plan):
             if k == 1:
@@ -751,6 +752,7 @@ class Interp:
             self.fail("replace/children-differ-from-replacement", "block has %r, replacement has %r" % (got, [w.obj for w in want]))
             raise Stop()
         self.pre_ids = set(self.by_id)
+        self.pre_shared = self.shared_cells(self.nodes)
         for g in got:
             if id(g) in self.by_id:
                 self.fail("replace/shares-node", "%r of the replaced block is an object that already existed" % (g,))
@@ -823,6 +825,7 @@ class Interp:
         self.out.label("copy:%s:%s" % (how, n.cls))
         mapping = {}
         self.pre_ids = set(self.by_id)
+        self.pre_shared = self.shared_cells(self.nodes)
         m = self.adopt(n, o2, how, mapping)
         if o2.parent is not None:
             self.fail("copy/root-has-parent", "%s of %r has parent %r" % (how, n.obj, o2.parent))
@@ -900,7 +903,7 @@ class Interp:
                 elif l2.grid is not None and l2.grid is not g2:
                     self.fail("copy/child-locator-foreign-grid", "%s of %r: locator of child %r has grid %r" % (how, o, c2, l2.grid))
                 elif isinstance(l2, self.A.grids.MultiIndexLocation) and all(cell.grid is l.grid for cell in l) \
-                        and any(cell.grid is not l2.grid for cell in l2):
+                        and not any(id(cell) in self.pre_shared for cell in l) and any(cell.grid is not l2.grid for cell in l2):
                     # "grids at the new owner": every cell of a multi-cell location follows the location, as in the original
                     # (MultiIndexLocation.detachedCopy keeps the cells of the grid it left: such a location is not judged)
                     self.fail("copy/multi-location-cell-not-in-copy-grid", "%s of %r: child %r sits on %r but its cells on %r"
@@ -959,7 +962,35 @@ class Interp:
         raise Stop()
 
     # ---- invariant -------------------------------------------------------------------------------------
+    def shared_cells(self, nodes):
+        """ids of location cells that occur in multi-cell locations under more than one parent.  A removed pin keeps
+        the very cell objects of the lattice it left (MultiIndexLocation.detachedCopy); after it is re-added elsewhere
+        and the tree is pickled, whichever grid is restored last owns those cells.  Such locations are not judged."""
+        multi = self.A.grids.MultiIndexLocation
+        owner, shared = {}, set()
+        for n in nodes:
+            loc = n.obj.spatialLocator
+            if isinstance(loc, multi):
+                key = n.parent if n.parent is not None else -1 - n.nid
+                for cell in loc:
+                    if owner.setdefault(id(cell), key) != key:
+                        shared.add(id(cell))
+        # ... and the lattice it left keeps them in its own registry: its __setstate__ claims them back
+        for n in nodes:
+            g = n.obj.spatialGrid
+            if g is not None and n.cls == "B":
+                for _ijk, cell in g.items():
+                    owner[("grid", id(cell))] = g
+        for n in nodes:
+            loc = n.obj.spatialLocator
+            if isinstance(loc, multi):
+                for cell in loc:
+                    if owner.get(("grid", id(cell)), loc.grid) is not loc.grid:
+                        shared.add(id(cell))
+        return shared
+
     def check_all(self):
+        shared = self.shared_cells(self.nodes)
         for n in self.nodes:
             o = n.obj
             got = list(o)
@@ -984,7 +1015,7 @@ class Interp:
             if g is not None and g.armiObject is not o:
                 self.fail("tree/grid-owner", "%r.spatialGrid.armiObject is %r" % (o, g.armiObject))
             if n.parent is not None and loc is not None and loc.grid is not None and not n.detached and isinstance(loc, self.A.grids.MultiIndexLocation):
-                if any(cell.grid is not loc.grid for cell in loc):
+                if any(cell.grid is not loc.grid for cell in loc) and not any(id(cell) in shared for cell in loc):
                     self.fail("tree/multi-location-cell-grid", "%r: cells of its multi-cell location belong to %r, the location to %r"
                               % (o, [cell.grid for cell in loc][:2], loc.grid))
             if n.parent is not None and loc is not None and loc.grid is not None and loc.grid is not self.par(n).obj.spatialGrid and not n.tempgrid:
